@@ -395,6 +395,7 @@ type Exec struct {
 
 	sched *scheduler
 	parseMemo map[string]*parseRes
+	atomicOps int
 }
 
 type inputRec struct {
